@@ -71,7 +71,7 @@ Ltac dm :=
 
 Ltac red_st :=
   cbn [lz cur par cm cmn pcnt pkc sks ps tsr tn tps set_tsr push descend init_st par_is_leaf
-       dpush dgo map zsk sk_n sk_path sk_pcnt sk_child lookup_by_path] in *.
+       dpush dgo map zsk sk_n sk_path sk_pcnt sk_child] in *.
 
 Ltac dms := repeat (dm; red_st; try congruence).
 
@@ -155,18 +155,24 @@ Proof.
   destruct (lbp_sim path f ph sn (ps sl) (tps sl)) as [H|[_ H]]; [exact H|contradiction].
 Qed.
 
+Lemma strong_rel_iff rl rn : strong_rel rl rn ->
+  (forall n t, (exists p tp, rl = Found n t p tp) <-> (exists p tp, rn = Found n t p tp)) /\
+  (rl = LPanic <-> rn = LPanic) /\ (rl = LOutOfFuel <-> rn = LOutOfFuel).
+Proof.
+  intros H. destruct rl, rn; cbn in H; try contradiction;
+    try match type of H with _ /\ _ => destruct H; subst end;
+    (split; [intros n' t'; split; intros (p & tp & E); try discriminate; inversion E; subst; eauto
+            | split; split; intros E; try discriminate; reflexivity ]).
+Qed.
+
+(* lazy run returns Found n t iff the non-lazy run does; likewise for a genuine index panic
+   (LPanic) and for running out of fuel *)
 Theorem lbp_lazy_irrelevant_iff : forall f path ph sl sn, lazy_rel sl sn -> Inv ph sn ->
   (forall n t, (exists p tp, lbp f path true ph sl = Found n t p tp) <->
                (exists p tp, lbp f path false ph sn = Found n t p tp)) /\
   (lbp f path true ph sl = LPanic <-> lbp f path false ph sn = LPanic) /\
   (lbp f path true ph sl = LOutOfFuel <-> lbp f path false ph sn = LOutOfFuel).
-Proof.
-  intros f path ph sl sn R I. pose proof (lbp_lazy_strong f path ph sl sn R I) as H.
-  destruct (lbp f path true ph sl), (lbp f path false ph sn); cbn in H; try contradiction;
-    try destruct H as [-> ->];
-    (split; [intros n' t'; split; intros (p & tp & E); try discriminate; inversion E; subst; eauto
-            | split; split; intros E; try discriminate; reflexivity ]).
-Qed.
+Proof. intros; apply strong_rel_iff, lbp_lazy_strong; assumption. Qed.
 
 (* the artifact branch of PBack ([:k] beyond len) is not the cause of any LPanic of a run that
    starts in a state satisfying the invariant: the lazy run, whose guard is `len < 0`, panics too *)
